@@ -138,7 +138,7 @@ pub fn distinct_blindings(inst: &mut Inst, rng: &mut (impl RngCore + rand_core::
 pub fn c09(opts: &Opts, out: &mut Out) {
     let mut rng = chacha(opts.seed, 9);
     let mut classes = std::collections::BTreeSet::new();
-    let reps = if opts.thorough { 4 } else { 1 };
+    let reps = if opts.thorough { 4 } else { 2 };
     for &n in &[1usize, 2, 4, 8, 16, 32, 64] {
         for t in 1..=6usize {
             for rep in 0..reps {
@@ -205,7 +205,7 @@ pub fn c09(opts: &Opts, out: &mut Out) {
         let proof = inst.prove(&mut rng).unwrap();
         pool.push((inst, stmt, proof));
     }
-    let nb = if opts.thorough { 60 } else { 15 };
+    let nb = if opts.thorough { 60 } else { 30 };
     for b in 0..nb {
         let k = 1 + (rng.next_u32() as usize % 9);
         let order: Vec<usize> = (0..k).map(|_| rng.next_u32() as usize % pool.len()).collect();
@@ -283,6 +283,25 @@ pub fn c10(opts: &Opts, out: &mut Out) {
                 }
                 out.oracle("C10:verdict-constant-across-seeds", verdicts.iter().all(|v| *v == verdicts[0]), &format!("{} proof={}", key, pname), "verdict changes with the seed");
             }
+            // a proof that is not even well formed (a point that does not decode, or the identity) is refused in every
+            // mode, with any seed or none: recovering never turns a refusal into a result
+            if n >= 2 {
+                let nslots = 3 + 2 * fmx::parts(&proof).l.len();
+                for (slot, kind) in [(0usize, "undecodable"), (1, "identity"), (2, "undecodable"), (3, "undecodable"), (nslots - 1, "undecodable"), (nslots - 1, "identity")] {
+                    let mut b = proof.to_bytes();
+                    let el = if slot < 3 { t + slot } else { t + 5 + (slot - 3) };
+                    let bytes: [u8; 32] = if kind == "identity" { [0u8; 32] } else { let mut x = [0xffu8; 32]; x[31] = 0x7f; x[0] = 0xed; x };
+                    b[1 + 32 * el..1 + 32 * (el + 1)].copy_from_slice(&bytes);
+                    let Ok(bad) = Proof::from_bytes(&b) else { continue };
+                    for (sname, s) in &seeds {
+                        let stmt = inst.statement_with(inst.cap, *s).unwrap();
+                        for a in fmrun::ACTIONS {
+                            let r = fmrun::verify_one(&inst, &stmt, &bad, a);
+                            out.oracle("C10:malformed-refused-in-every-mode", r.is_err(), &format!("{} point-slot={} {} seed={} action={:?}", key, slot, kind, sname, a), "a proof with a malformed point produced a result");
+                        }
+                    }
+                }
+            }
         }
     }
     out.stat("distinct_classes", classes.len());
@@ -293,7 +312,7 @@ pub fn c10(opts: &Opts, out: &mut Out) {
 pub fn c08(opts: &Opts, out: &mut Out) {
     let mut rng = chacha(opts.seed, 8);
     let mut classes = std::collections::BTreeSet::new();
-    let configs: Vec<(usize, usize, usize)> = if opts.thorough { vec![(2, 2, 1), (2, 3, 2), (2, 4, 3), (4, 2, 6), (8, 3, 4), (2, 4, 1)] } else { vec![(2, 2, 1), (2, 3, 2), (4, 4, 3)] };
+    let configs: Vec<(usize, usize, usize)> = if opts.thorough { vec![(2, 2, 1), (2, 3, 2), (2, 4, 3), (4, 2, 6), (8, 3, 4), (2, 4, 1)] } else { vec![(2, 2, 1), (2, 3, 2), (4, 4, 3), (4, 2, 6)] };
     // both verifying modes: the weights must bind the proofs whichever mode checks the equation
     let configs: Vec<(usize, usize, usize, usize)> = configs.iter().flat_map(|&(n, k, t)| [(n, k, t, 0usize), (n, k, t, 1usize)]).collect();
     for (n, k, t, mode) in configs {
